@@ -132,6 +132,22 @@ def verifiedRegToJson (r : VerifiedReg) : Json :=
     ("user_verified", r.userVerified), ("attestation_object", bytesToJson r.attestationObject),
     ("credential_device_type", r.deviceType), ("credential_backed_up", r.backedUp)]
 
+def optStrToJson : Option String → Json
+  | none => Json.null
+  | some s => Json.str s
+
+def regCredJsonToJson (c : RegCredJson) : Json :=
+  Json.mkObj [("id", c.id), ("raw_id", bytesToJson c.rawId), ("client_data_json", bytesToJson c.clientDataJSON),
+    ("attestation_object", bytesToJson c.attestationObject),
+    ("transports", match c.transports with | none => Json.null | some ts => Json.arr (ts.map Json.str).toArray),
+    ("authenticator_attachment", optStrToJson c.attachment), ("type", "public-key")]
+
+def authCredJsonToJson (c : AuthCredJson) : Json :=
+  Json.mkObj [("id", c.id), ("raw_id", bytesToJson c.rawId), ("client_data_json", bytesToJson c.clientDataJSON),
+    ("authenticator_data", bytesToJson c.authenticatorData), ("signature", bytesToJson c.signature),
+    ("user_handle", optBytesToJson c.userHandle), ("authenticator_attachment", optStrToJson c.attachment),
+    ("type", "public-key")]
+
 partial def runOp (hin hout : IO.FS.Stream) (j : Json) : IO Json := do
   let op ← liftP (strField j "op")
   match op with
@@ -199,6 +215,19 @@ partial def runOp (hin hout : IO.FS.Stream) (j : Json) : IO Json := do
     let e ← liftP (do regExpectOfJson (← field j "expect"))
     let r ← runMIO hin hout (verifyReg c e)
     pure (outcomeToJson verifiedRegToJson r)
+  | "parse_cred_json" => do
+    let kind ← liftP (strField j "kind")
+    match fieldOpt j "text" with
+    | some t => do
+      let s ← liftP t.getStr?
+      if kind == "reg" then
+        pure (outcomeToJson regCredJsonToJson (← runMIO hin hout (parseRegCredText s)))
+      else
+        pure (outcomeToJson authCredJsonToJson (← runMIO hin hout (parseAuthCredText s)))
+    | none => do
+      let v ← liftP (do jvalOfJson (← field j "value"))
+      if kind == "reg" then pure (outcomeToJson regCredJsonToJson (parseRegCredJson v))
+      else pure (outcomeToJson authCredJsonToJson (parseAuthCredJson v))
   | "verify_auth" => do
     let c ← liftP (do authCredOfJson (← field j "cred"))
     let e ← liftP (do authExpectOfJson (← field j "expect"))
